@@ -133,4 +133,11 @@ CLAIMED["C16"] = {
           "through the private driver (debug+release, both switches): implementation = extracted model; extracted `select` evaluated on the implementation's own symbol table; program vs its selected world.",
   "design_ref": "6/C16", "note": COMMON_NOTE + " Known finding F55 (nested symbol across #if). Fuel sufficiency and absence of panic values of the model are monitored at run time, not proved.",
   "technique": "Coq proof (induction on expressions; loop invariant preserved by collect/resolve/splice; induction on fuel) + differential correspondence + extracted spec on implementation output + metamorphic"}
-NOT_CLAIMED = {"C17": "check under construction (asm-block/function models and macro-vs-inline streams)", "C19": "check under construction (guard model, limit sweeps)"}
+CLAIMED["C19"] = {
+  "text": "PARTIAL BY NATURE. Logical part proved for all inputs: every numeric guard (shift amount, slice bounds, #dN/uN widths, #res/#align/#addr, all #bankdef fields incl. size*bits and outp, output positions/fill vs BIGINT_MAX_BITS, "
+          "incbin ranges, annotated group) never overflows, rejects above its bound before the protected loop/allocation, and bounds the accepted work by BIGINT_MAX_BITS; parser, block and eval depth counters are bounded by the "
+          "regenerated limits (<= 64 / <= 32, table obligations) and reject beyond them. Runtime part (stack, memory, time) is exhibited, not proved: real binary, debug+release, ulimit -s 8192 -v 4 GiB, 20 s, on nesting 10..10^4 (10^5 thorough), "
+          "recursion cycles of length 1..4, magnitudes 2^k+-1 (k <= 70); crate vs extracted guard model (outcome class, label value, debug vs release divergence = silent wrap).",
+  "design_ref": "6/C19", "note": COMMON_NOTE + " Refuted at model level and reproduced on the binary (known findings): F11, F48, F56, F57, F58, F61, F62; observed only: F12, F59, F60. Frame sizes / allocator / wall time are runtime facts outside any theorem.",
+  "technique": "instrumented Gallina guard model + depth state machines; theorems over Z/N; table obligations against Generated.v; differential correspondence crate/extracted model and binary/model; resource-limited process runs"}
+NOT_CLAIMED = {"C17": "check under construction (asm-block/function models and macro-vs-inline streams)"}
